@@ -28,6 +28,9 @@ pub struct GenCfg {
     pub clear_pct: u32,
     /// any-values beyond tagged ints (strings, floats, buffers, nested json)
     pub rich_any: bool,
+    /// nested values are sequences only (text, array, xml): no map-held containers
+    #[serde(default)]
+    pub seq_only: bool,
 }
 
 impl GenCfg {
@@ -58,6 +61,7 @@ impl GenCfg {
             max_del: rng.range(1, 4) as u32,
             clear_pct: *rng.pick(&[0, 5, 10]),
             rich_any: rng.chance(50),
+            seq_only: false,
         }
     }
 }
@@ -152,7 +156,8 @@ fn gen_any(rng: &mut Rng, tags: &mut Tags, rich: bool) -> Val {
 
 pub fn gen_val(rng: &mut Rng, tags: &mut Tags, cfg: &GenCfg, depth: u32) -> Val {
     if depth < cfg.max_depth && rng.chance(cfg.nest_pct) {
-        match rng.below(5) {
+        let pick = if cfg.seq_only { *rng.pick(&[0u64, 1, 3, 4]) } else { rng.below(5) };
+        match pick {
             0 => Val::Text(tags.chars(rng.range(0, 3) as u32)),
             1 => {
                 let n = rng.range(0, 2);
